@@ -204,7 +204,7 @@ def one(args):
 class HostlistLayer:
     name = 'hostlist'
 
-    def __init__(self, quick=(32, 1500), thorough=(128, 6000)):
+    def __init__(self, quick=(32, 1500), thorough=(512, 8000)):
         self.quick = quick; self.thorough = thorough
 
     def build(self):
